@@ -284,6 +284,18 @@ def run_e2e(case, stats, viol):
                 frag = '^' + re.escape(s[:b])
             elif r < 0.3:
                 frag = re.escape(s[a:]) + '$'
+            elif r < 0.45 and b - a >= 2:
+                # regex syntax made of characters that mean something to
+                # command-line conventions too (commas, '=', blanks, ';'):
+                # a pattern is one regular expression, taken as it is
+                c = re.escape(s[b - 1])
+                head = re.escape(s[a:b - 1])
+                frag = rng.choice([head + c + '{1,2}', head + c + '{1,}',
+                                   head + '[%s,;]' % c, head + '[ =%s]' % c,
+                                   '(?:%s){1,3}' % frag, head + c + '{0,1}$'
+                                   if b == len(s) else head + c + '{1,1}'])
+                stats['patterns_with_commas_and_the_like'] = \
+                    stats.get('patterns_with_commas_and_the_like', 0) + 1
             if rng.random() < 0.4:
                 frag = '!' + frag
             return frag
